@@ -68,7 +68,8 @@ CLAIMED = {
  'C07': dict(
    text='Coq theorem history_independent: for every valid animation and every sequence over {read_frame, reset_animation, read_image, caller buffer fill} the trace of the '
         'AnimationState machine equals the trace of a playback cursor over what a fresh decoder shows; the three clauses of the property are corollaries '
-        '(frames after reset, read_image = first frame and position unchanged, NoMoreFrames leaves the buffer alone).',
+        '(frames after reset, read_image = first frame and position unchanged, NoMoreFrames leaves the buffer alone). Modules H / HC: the same for the decoder working on the file bytes '
+        '(Model/ReadImageOps.v run_ops: read_frame with the ANMF location loop, reset_animation, read_image save / rewind / restore) for every well-formed animated container whose frames decode.',
    note='Trusted: Coq kernel; hand model of the state machine (Model/Anim.v, repaired tree: F15) tied by correspondence on random call sequences through the public API; '
         'payload decoding abstracted as in C06.',
    technique='Coq proof (state-machine invariant by induction over call sequences) + correspondence check on op sequences',
